@@ -867,6 +867,13 @@ class Engine(
                         # right, reflecting the fact that the derived engine is
                         # supposed to have final say over how we convert
                         # literals.
+                        if step < 0:
+                            # Rewrite a descending range as the ascending range
+                            # with the same elements.
+                            elements = range(start, stop_exclusive, step)
+                            if not elements:
+                                return sqlalchemy.sql.literal(False)
+                            start, stop_exclusive, step = elements[-1], elements[0] + 1, -step
                         stop_inclusive = stop_exclusive - 1
                         if start == stop_inclusive:
                             return sql_item == self.convert_column_literal(start)
@@ -877,13 +884,17 @@ class Engine(
                                 self.convert_column_literal(stop_inclusive),
                             )
                             if step != 1:
-                                return sqlalchemy.sql.and_(
-                                    *[
-                                        target,
-                                        sql_item % self.convert_column_literal(step)
-                                        == self.convert_column_literal(start % step),
-                                    ]
-                                )
+                                if start >= 0:
+                                    on_step = sql_item % self.convert_column_literal(
+                                        step
+                                    ) == self.convert_column_literal(start % step)
+                                else:
+                                    # SQL's % takes the sign of its left operand,
+                                    # so shift it to be non-negative over the range.
+                                    on_step = (
+                                        sql_item - self.convert_column_literal(start)
+                                    ) % self.convert_column_literal(step) == self.convert_column_literal(0)
+                                return sqlalchemy.sql.and_(*[target, on_step])
                             else:
                                 return target
                     case ColumnExpressionSequence(items=items):
